@@ -1,20 +1,40 @@
-------------------------------- MODULE MCText -------------------------------
+------------------------------ MODULE MCRender ------------------------------
 (***************************************************************************)
-(* C03 / C04, bounded model: all small grids over an alphabet of cell      *)
+(* Bounded model shared by the renderer properties (C03-C08): all small grids over an alphabet of cell      *)
 (* shapes (empty, one narrow line, one wide line, two lines, items that    *)
 (* declare a width or a height), optional header of any length, separators *)
 (* anywhere, ragged and empty rows; then every assignment of alignments to *)
-(* column 0 and each column; then a text wrapper, a decoration, a render.  *)
-(* Model level: the implementation-shaped emitter satisfies the            *)
-(* declarative layout relation.  Every render scenario is written out.     *)
+(* column 0 and each column (text, markdown) or of skipable (JSON); then a  *)
+(* wrapper of format Fmt, a decoration (text), html options, a render.     *)
+(* Model level: the implementation-shaped emitter of the format satisfies  *)
+(* the declarative relation of the format.  Every render scenario is       *)
+(* written out for the real library.                                       *)
 (***************************************************************************)
 EXTENDS TabularRender, Json, CSV
-CONSTANTS CellNames, MaxCols, MaxRows, AlignVals, DecorNames, HdrChoices, GenFile
+CONSTANTS Fmt, CellNames, MaxCols, MaxRows, AlignVals, DecorNames, HdrChoices, HtmlChoices, GenFile
 VARIABLES st, hist, ph
 vars == <<st, hist, ph>>
 
 L(s) == << <<s, Len(s)>> >>
+\* hostile texts by name (the other names stand for themselves)
+Hostile(name) ==
+  CASE name = "E" -> "" [] name = "Q" -> "\"" [] name = "C" -> "," [] name = "N" -> "\n" [] name = "R" -> "\r"
+    [] name = "QQ" -> "a\"b" [] name = "CQ" -> ",\"" [] name = "RN" -> "x\r\ny" [] name = "P" -> "|" [] name = "B" -> "\\"
+    [] name = "BP" -> "\\|" [] name = "LT" -> "<b>" [] name = "AMP" -> "&amp;" [] name = "SP" -> " x " [] name = "NN" -> "a\nb"
+    [] name = "AP" -> "'" [] name = "GT" -> ">" [] name = "SC" -> "</td><script>" [] name = "U" -> "u"
+    [] OTHER -> name
+Enc(s) == "\"" \o s \o "\""     \* placeholder JSON encoding inside the bounded model (the driver logs the real one)
 ItemOf(name) ==
+  IF Fmt # "text" THEN
+    CASE name = "nil" -> [k |-> "nil", enc |-> "null"]
+      [] name = "num" -> [k |-> "other", which |-> "int42", caps |-> <<>>, strv |-> "", gov |-> "", errv |-> "", fmtv |-> "42",
+                          h |-> 0, w |-> 0, enc |-> "42", tx |-> [strv |-> <<>>, gov |-> <<>>, errv |-> <<>>, fmtv |-> <<>>]]
+      [] name = "obj" -> [k |-> "other", which |-> "strhidden", caps |-> <<"String">>, strv |-> "shown text", gov |-> "", errv |-> "", fmtv |-> "F",
+                          h |-> 0, w |-> 0, enc |-> "{}", tx |-> [strv |-> <<>>, gov |-> <<>>, errv |-> <<>>, fmtv |-> <<>>]]
+      [] name = "obje" -> [k |-> "other", which |-> "strhiddenempty", caps |-> <<"String">>, strv |-> "", gov |-> "", errv |-> "", fmtv |-> "F",
+                          h |-> 0, w |-> 0, enc |-> "{}", tx |-> [strv |-> <<>>, gov |-> <<>>, errv |-> <<>>, fmtv |-> <<>>]]
+      [] OTHER -> [k |-> "str", s |-> Hostile(name), enc |-> Enc(Hostile(name)), tx |-> [s |-> <<>>]]
+  ELSE
   CASE name = "e"  -> [k |-> "str", s |-> "", tx |-> [s |-> <<>>]]
     [] name = "a"  -> [k |-> "str", s |-> "a", tx |-> [s |-> L("a")]]
     [] name = "w"  -> [k |-> "str", s |-> "bbb", tx |-> [s |-> L("bbb")]]
@@ -57,8 +77,14 @@ Next ==
      /\ \/ Skip(NextAlignPh)
         \/ /\ AlignCol <= T.ncols
            /\ \E v \in AlignVals : Do([op |-> "setprop", owner |-> [kind |-> "column", t |-> 1, n |-> AlignCol],
-                                        k |-> "k_align", v |-> v], NextAlignPh)
-  \/ ph = "wrap" /\ Do([op |-> "wrap", kind |-> "text", over |-> [t |-> 1]], "decor")
+                                        k |-> IF Fmt = "json" THEN "k_skip" ELSE "k_align", v |-> v], NextAlignPh)
+  \/ ph = "wrap" /\ Do([op |-> "wrap", kind |-> Fmt, over |-> [t |-> 1]],
+                        IF Fmt = "text" THEN "decor" ELSE IF Fmt = "html" THEN "html" ELSE "render")
+  \/ ph = "html" /\ \E hc \in HtmlChoices :
+        IF hc = "none" THEN Skip("render")
+        ELSE Do([op |-> "htmlopts", w |-> 1, id |-> IF hc = "all" THEN "ID" ELSE "", class |-> IF hc = "all" THEN "CL" ELSE "",
+                 caption |-> IF hc = "all" THEN "CAP" ELSE "", gen |-> 1,
+                 genvals |-> IF hc = "gen0" THEN <<>> ELSE <<"r0", "r1">>], "render")
   \/ ph = "decor" /\ \E d \in DecorNames :
         IF d = "default" THEN Skip("render")
         ELSE Do([op |-> "decor", w |-> 1, name |-> d,
@@ -71,5 +97,6 @@ View == <<st, ph>>
 Emit == GenFile = "" \/ ph' # "done" \/ CSVWrite("%1$s", <<ToJson(hist')>>, GenFile)
 
 Inv == /\ Inv_C02(st)
-       /\ (ph = "render") => EmitTextOK(st, 1, st.wr[1].dec)
+       /\ (ph = "render" /\ Fmt = "text") => EmitTextOK(st, 1, st.wr[1].dec)
+       /\ (ph = "render" /\ Fmt # "text") => EmitOK(st, 1, Fmt)
 =============================================================================
